@@ -103,9 +103,9 @@ class Rig:
             return Devices()
         return self.on_device
 
-    def make_bridge(self, form="bound-method"):
+    def make_bridge(self, form="bound-method", container="list"):
         from aioswitcher.bridge import SwitcherBridge
-        self.bridge = SwitcherBridge(self.callback(form), list(self.ports))
+        self.bridge = SwitcherBridge(self.callback(form), {"list": list, "tuple": tuple}[container](self.ports))
         return self.bridge
 
     def observe(self):
